@@ -53,6 +53,9 @@ fn huffman_decompress<'d, 's, 'x>(input: &[u8], buffer: &'x mut BufferRef<'d, 's
         (*final(buffer)).cap() == (*old(buffer)).cap(),
         r.is_ok() ==> (*final(buffer)).init().len() >= (*old(buffer)).init().len()
             && (*final(buffer)).init().subrange(0, (*old(buffer)).init().len() as int) == (*old(buffer)).init(),
+        // C07 (unit huff, lemma_roundtrip): what the compressor produced for x decodes to x whenever there is room for it
+        forall|x: Seq<u8>| input@ == #[trigger] huff_c(x) && (*old(buffer)).init().len() + x.len() <= (*old(buffer)).cap()
+            ==> r.is_ok() && (*final(buffer)).init() == (*old(buffer)).init() + x,
 { unimplemented!() }
 
 impl<'a> Packet<'a> {
@@ -68,6 +71,17 @@ impl<'a> Packet<'a> {
             ph_flags(packet@[0]) & PACKETFLAG_COMPRESSION != 0,
         ensures
             r.is_ok() ==> 7 <= r.unwrap()@.len() <= (*old(buffer)).cap(),
+            // same clause as decompress_impl (the nested view starts empty and has the whole capacity)
+            forall|x: Seq<u8>| packet@.subrange(7, packet@.len() as int) == #[trigger] huff_c(x) && x.len() <= 1393 ==> r.is_ok() && ({
+                let o = r.unwrap()@;
+                &&& o.len() == 7 + x.len()
+                &&& o.subrange(7, o.len() as int) == x
+                &&& ph_flags(o[0]) == ph_flags(packet@[0]) & !PACKETFLAG_COMPRESSION
+                &&& ph_ack(o[0], o[1]) == ph_ack(packet@[0], packet@[1])
+                &&& o[2] == packet@[2]
+                &&& o.subrange(3, 7) == packet@.subrange(3, 7)
+                &&& ph_canonical(o[0])
+            }),
     { unimplemented!() }
 }
 
@@ -174,9 +188,10 @@ fn vx_roundtrip_control<'d, 's, 'e, 't, W: Warn<Warning>>(
     }
 }
 
-// ---- composition for chunk packets (C05 / C06), 0.7: written by ConnectedPacket::write_impl and read back. For the UNCOMPRESSED
-//      output form: same ack, token, resend flag, chunk count, payload bytes, and no warning (except the documented ChunksNoChunks).
-//      When the writer chose Huffman compression the contracts say nothing about the bytes (that path rests on the C07 contract).
+// ---- composition for chunk packets (C05 / C06), 0.7: written by ConnectedPacket::write_impl and read back: same ack, token, resend
+//      flag, chunk count and payload bytes, and no warning (except the documented ChunksNoChunks) -- for BOTH output forms of the writer.
+//      Checked against the two contracts only; for the compressed form they speak about huff_c (shared/huff_spec.rs), i.e. the round trip
+//      rests on unit huff's theorem.
 fn vx_roundtrip_chunks<'d, 's, 'e, 't, W: Warn<Warning>>(
     warn: &mut W,
     p: &ConnectedPacket<'d>,
@@ -191,34 +206,27 @@ fn vx_roundtrip_chunks<'d, 's, 'e, 't, W: Warn<Warning>>(
         p.type_->Chunks_2@.len() <= 1393,
 {
     let ghost w0 = warn.count();
+    let ghost pl = p.type_->Chunks_2@;
     let w = p.write_impl(buffer);
     assert(w.is_ok());
     let bytes = w.unwrap();
     proof {
         assert(PACKETFLAG_CONTROL == 1u8 && PACKETFLAG_CONNLESS == 8u8 && PACKETFLAG_REQUEST_RESEND == 2u8 && PACKETFLAG_COMPRESSION == 4u8) by (compute_only);
     }
-    let compressed = bytes[0] & 0b0001_0000 != 0;   // PACKETFLAG_COMPRESSION in the packed header
-    proof {
-        let b = bytes@[0];
-        assert((b & 0b0001_0000 != 0) == (((b & 0b0011_1100) >> 2) & 4u8 != 0)) by (bit_vector);
-        assert(ph_flags(b) == (b & 0b0011_1100) >> 2);
-    }
-    if !compressed {
-        let r = Packet::read_impl(warn, bytes, Some(scratch));
-        assert(r.is_ok());
-        match r.unwrap() {
-            Packet::Connless(_) => { assert(false); }
-            Packet::Connected(q) => {
-                assert(q.ack == p.ack);
-                assert(q.token.0@ =~= p.token.0@);
-                match q.type_ {
-                    ConnectedPacketType::Control(_) => { assert(false); }
-                    ConnectedPacketType::Chunks(rr, num, payload) => {
-                        assert(rr == p.type_->Chunks_0);
-                        assert(num == p.type_->Chunks_1);
-                        assert(payload@ =~= p.type_->Chunks_2@);
-                        assert(num != 0 || rr ==> warn.count() == w0);
-                    }
+    let r = Packet::read_impl(warn, bytes, Some(scratch));
+    assert(r.is_ok());
+    match r.unwrap() {
+        Packet::Connless(_) => { assert(false); }
+        Packet::Connected(q) => {
+            assert(q.ack == p.ack);
+            assert(q.token.0@ =~= p.token.0@);
+            match q.type_ {
+                ConnectedPacketType::Control(_) => { assert(false); }
+                ConnectedPacketType::Chunks(rr, num, payload) => {
+                    assert(rr == p.type_->Chunks_0);
+                    assert(num == p.type_->Chunks_1);
+                    assert(payload@ =~= pl);
+                    assert(num != 0 || rr ==> warn.count() == w0);
                 }
             }
         }
